@@ -97,7 +97,7 @@ pub fn run(ctx: &Ctx) {
     }
     // all permutations of drop order over 5 keys built by different constructors
     let perms = permutations(5);
-    let rounds = ctx.tier.pick(1, 10);
+    let rounds = ctx.tier.pick(1, 40);
     for round in 0..rounds {
         for p in &perms {
             let raw = rng.bytes(32);
